@@ -159,6 +159,12 @@ fn main() {
             // stuck threads are abandoned with the process
             std::process::exit(0);
         }
+        Some("ptrace") => {
+            let mut out = std::fs::OpenOptions::new().create(true).append(true).open(&args[2]).unwrap();
+            let ms: u64 = args[3].parse().unwrap();
+            let evs = perthread::race_free(Duration::from_millis(ms));
+            write_events(&mut out, &evs);
+        }
         _ => {
             eprintln!("usage: h_linked run <stimuli.ndjson> <trace.ndjson> <start> | free <stimulus-json> <trace.ndjson> <watchdog-ms>");
             std::process::exit(2);
